@@ -18,6 +18,10 @@
 
 #define SEXP_MINIMUM_OBJECT_SIZE (sexp_heap_align(1))
 
+#if SEXP_VERIF_SIM
+struct sexp_verif_hooks_t sexp_verif_hooks;
+#endif
+
 #if SEXP_USE_GLOBAL_HEAP
 sexp_heap sexp_global_heap;
 #endif
@@ -84,6 +88,9 @@ void sexp_debug_alloc_sizes(sexp ctx) {
 #endif
 
 void sexp_free_heap (sexp_heap heap) {
+#if SEXP_VERIF_SIM
+  if (sexp_verif_hooks.heap) sexp_verif_hooks.heap(heap, 0);
+#endif
 #if SEXP_USE_MMAP_GC
   munmap(heap, sexp_heap_pad_size(heap->size));
 #else
@@ -559,13 +566,22 @@ sexp sexp_gc (sexp ctx, size_t *sum_freed) {
   sexp_debug_printf("%p (heap: %p size: %lu)", ctx, sexp_context_heap(ctx),
                     sexp_heap_total_size(sexp_context_heap(ctx)));
 #endif
+#if SEXP_VERIF_SIM
+  if (sexp_verif_hooks.gc) sexp_verif_hooks.gc(ctx, 0);
+#endif
   sexp_mark_global_symbols(ctx);
   sexp_mark(ctx, ctx);
   sexp_conservative_mark(ctx);
   sexp_reset_weak_references(ctx);
+#if SEXP_VERIF_SIM
+  if (sexp_verif_hooks.gc) sexp_verif_hooks.gc(ctx, 1);
+#endif
   finalized = sexp_finalize(ctx);
   res = sexp_sweep(ctx, sum_freed);
   ++sexp_context_gc_count(ctx);
+#if SEXP_VERIF_SIM
+  if (sexp_verif_hooks.gc) sexp_verif_hooks.gc(ctx, 2);
+#endif
 #if SEXP_USE_TIME_GC
   getrusage(RUSAGE_SELF, &end);
   gc_usecs = (end.ru_utime.tv_sec - start.ru_utime.tv_sec) * 1000000 +
@@ -607,6 +623,9 @@ sexp_heap sexp_make_heap (size_t size, size_t max_size, size_t chunk_size) {
           sexp_heap_first_block(h), sexp_heap_end(h));
   fprintf(stderr, SEXP_BANNER("free1: %p-%p free2: %p-%p"),
           free, ((char*)free)+free->size, next, ((char*)next)+next->size);
+#endif
+#if SEXP_VERIF_SIM
+  if (sexp_verif_hooks.heap) sexp_verif_hooks.heap(h, 1);
 #endif
   return h;
 }
@@ -659,6 +678,9 @@ void* sexp_try_alloc (sexp ctx, size_t size) {
                   " next: %p (%lu)\n", size, ls2, ls2->size, ls3, ls2->next,
                   (ls2->next ? ls2->next->size : 0));
 #endif
+#if SEXP_VERIF_SIM
+        if (sexp_verif_hooks.took) sexp_verif_hooks.took(ctx, ls2, size, ls2->size);
+#endif
         if (ls2->size >= (size + SEXP_MINIMUM_OBJECT_SIZE)) {
           ls3 = (sexp_free_list) (((char*)ls2)+size); /* the tail after ls2 */
           ls3->size = ls2->size - size;
@@ -709,6 +731,10 @@ void* sexp_alloc (sexp ctx, size_t size) {
   struct timeval start, end;
   gettimeofday(&start, NULL);
 #endif
+#if SEXP_VERIF_SIM
+  size_t verif_req_size = size;
+  if (sexp_verif_hooks.alloc) sexp_verif_hooks.alloc(ctx, size);
+#endif
   size = sexp_heap_align(size) + SEXP_GC_PAD;
 #if SEXP_USE_TRACK_ALLOC_SIZES
   size_bucket = (size - SEXP_GC_PAD) / sexp_heap_align(1) - 1;
@@ -739,6 +765,9 @@ void* sexp_alloc (sexp ctx, size_t size) {
   sexp_context_alloc_count(ctx) += 1;
   sexp_context_alloc_usecs(ctx) += alloc_time;
   sexp_context_alloc_usecs_sq(ctx) += alloc_time*alloc_time;
+#endif
+#if SEXP_VERIF_SIM
+  if (sexp_verif_hooks.done) sexp_verif_hooks.done(ctx, res, verif_req_size, size);
 #endif
   return res;
 }
